@@ -49,6 +49,7 @@ import (
 	"database/sql"
 	"encoding/json"
 	"fmt"
+	"os"
 	"path/filepath"
 	"sort"
 	"strings"
@@ -244,6 +245,7 @@ func (m *model) expect(u int, req string, t int) (tri, string) {
 // ------------------------------------------------------------- environment
 
 type env struct {
+	known   map[string]bool
 	f       *srvfix.Fixture
 	hdr     [4]map[string]string
 	conn    [2]*sql.DB
@@ -273,7 +275,7 @@ func startEnv() (*env, error) {
 	if err != nil {
 		return nil, err
 	}
-	e := &env{f: f}
+	e := &env{f: f, known: loadKnown()}
 	tok, err := f.AdminToken()
 	if err != nil {
 		return nil, err
@@ -317,6 +319,34 @@ func startEnv() (*env, error) {
 		e.conn[d] = db
 	}
 	return e, nil
+}
+
+// loadKnown reads the signatures of recorded findings (the file vkit uses), so
+// that a history goes on behind a recorded defect instead of ending there.
+func loadKnown() map[string]bool {
+	out := map[string]bool{}
+	p := os.Getenv("VERIF_KNOWN")
+	if p == "" {
+		p = filepath.Join(vkit.Root(), "known_findings.json")
+	}
+	b, err := os.ReadFile(p)
+	if err != nil {
+		return out
+	}
+	var kf struct {
+		Findings []struct {
+			Property string `json:"property"`
+			Sig      string `json:"sig"`
+		} `json:"findings"`
+	}
+	if json.Unmarshal(b, &kf) == nil {
+		for _, k := range kf.Findings {
+			if k.Property == "C43" {
+				out[k.Sig] = true
+			}
+		}
+	}
+	return out
 }
 
 func (e *env) do(who int, method, path, body string) *srvfix.Response {
@@ -449,9 +479,18 @@ func oracle(c Case) vkit.Outcome {
 	}
 	m := newModel()
 	var trace []string
-	fail := func(sig, observed, expected string) vkit.Outcome {
-		out.Fail = &vkit.Failure{Sig: sig, Observed: observed + "\nhistory so far:\n  " + strings.Join(trace, "\n  "), Expected: expected}
-		return out
+	var knownFail *vkit.Failure
+	// fail records a violation; a recorded (known) one does not end the history
+	fail := func(sig, observed, expected string) (vkit.Outcome, bool) {
+		f := &vkit.Failure{Sig: sig, Observed: observed + "\nhistory so far:\n  " + strings.Join(trace, "\n  "), Expected: expected}
+		if e.known[sig] {
+			if knownFail == nil {
+				knownFail = f
+			}
+			return out, false
+		}
+		out.Fail = f
+		return out, true
 	}
 	// grants seen so far, for the non-triviality rule
 	type gkey struct{ u, d, t int }
@@ -486,7 +525,9 @@ func oracle(c Case) vkit.Outcome {
 			ok := r.Status/100 == 2
 			if actor == 3 {
 				if !ok {
-					return fail("table-grant-endpoint-failed", fmt.Sprintf("administrator: PUT %s %s -> %d %s", path, b, r.Status, clip(r.Body, 300)), "2xx")
+					if o, stop := fail("table-grant-endpoint-failed", fmt.Sprintf("administrator: PUT %s %s -> %d %s", path, b, r.Status, clip(r.Body, 300)), "2xx"); stop {
+						return o
+					}
 				}
 			} else if op.DSN == 0 {
 				// an ordinary user may administer a table's grants only with
@@ -495,9 +536,11 @@ func oracle(c Case) vkit.Outcome {
 				has := m.dsnG[actor]["admin"] || m.tblG[actor][0][op.Table]["admin"]
 				out.Labels = append(out.Labels, fmt.Sprintf("ugrant restricted has-admin=%v -> %d", has, r.Status/100))
 				if ok && !has {
-					return fail("user-granted-table-permission-without-admin-grant",
+					if o, stop := fail("user-granted-table-permission-without-admin-grant",
 						fmt.Sprintf("%s (dsn grants {%s}, table grants {%s}): PUT %s %s -> %d %s", userNames[actor], setString(m.dsnG[actor]), setString(m.tblG[actor][0][op.Table]), path, b, r.Status, clip(r.Body, 200)),
-						"403: the caller administers neither the DSN nor this table")
+						"403: the caller administers neither the DSN nor this table"); stop {
+						return o
+					}
 				}
 			}
 			if ok {
@@ -517,7 +560,9 @@ func oracle(c Case) vkit.Outcome {
 						got[strings.TrimPrefix(p, "ego.table.")] = true
 					}
 					if setString(got) != setString(m.tblG[op.User][op.DSN][op.Table]) {
-						return fail("permission-store-differs-from-grants-made", fmt.Sprintf("after PUT %s %s the store reports {%s}", path, b, setString(got)), "{"+setString(m.tblG[op.User][op.DSN][op.Table])+"}")
+						if o, stop := fail("permission-store-differs-from-grants-made", fmt.Sprintf("after PUT %s %s the store reports {%s}", path, b, setString(got)), "{"+setString(m.tblG[op.User][op.DSN][op.Table])+"}"); stop {
+							return o
+						}
 					}
 				}
 			}
@@ -528,7 +573,9 @@ func oracle(c Case) vkit.Outcome {
 			r := e.do(3, "DELETE", path, "")
 			trace = append(trace, fmt.Sprintf("%d admin DELETE %s -> %d", i, path, r.Status))
 			if r.Status/100 != 2 {
-				return fail("table-grant-endpoint-failed", fmt.Sprintf("administrator: DELETE %s -> %d %s", path, r.Status, clip(r.Body, 300)), "2xx")
+				if o, stop := fail("table-grant-endpoint-failed", fmt.Sprintf("administrator: DELETE %s -> %d %s", path, r.Status, clip(r.Body, 300)), "2xx"); stop {
+					return o
+				}
 			}
 			m.tblG[op.User][op.DSN][op.Table] = map[string]bool{}
 			out.Labels = append(out.Labels, "op tclear")
@@ -539,7 +586,9 @@ func oracle(c Case) vkit.Outcome {
 			trace = append(trace, fmt.Sprintf("%d admin POST /dsns/@permissions %s -> %d", i, b, r.Status))
 			e.dsnLive = true
 			if r.Status/100 != 2 {
-				return fail("dsn-grant-endpoint-failed", fmt.Sprintf("administrator: POST /dsns/@permissions %s -> %d %s", b, r.Status, clip(r.Body, 300)), "2xx")
+				if o, stop := fail("dsn-grant-endpoint-failed", fmt.Sprintf("administrator: POST /dsns/@permissions %s -> %d %s", b, r.Status, clip(r.Body, 300)), "2xx"); stop {
+					return o
+				}
 			}
 			applyPerms(m.dsnG[op.User], op.Perms)
 			for _, p := range op.Perms {
@@ -630,17 +679,23 @@ func oracle(c Case) vkit.Outcome {
 			}
 			obs := fmt.Sprintf("%s on the %s DSN: %s %s %s -> %d %s", who3, ctxs, method, path, body, r.Status, clip(r.Body, 200))
 			if r.Panic != nil {
-				return fail("handler-panic "+srvfix.PanicSite(r.Stack), obs+fmt.Sprintf(" panic: %v", r.Panic), "a response")
+				if o, stop := fail("handler-panic "+srvfix.PanicSite(r.Stack), obs+fmt.Sprintf(" panic: %v", r.Panic), "a response"); stop {
+					return o
+				}
 			}
 			switch {
 			case exp == deny && class == "2xx":
-				return fail(fmt.Sprintf("allowed-without-grant req=%s missing=%s", op.Req, why), obs, "403: the permission store has no matching "+why+" grant for this user")
+				if o, stop := fail(fmt.Sprintf("allowed-without-grant req=%s missing=%s", op.Req, why), obs, "403: the permission store has no matching "+why+" grant for this user"); stop {
+					return o
+				}
 			case exp == allow && class == "denied":
 				sig := fmt.Sprintf("denied-despite-grant req=%s", op.Req)
 				if ctxs != "restricted" {
 					sig = fmt.Sprintf("%s-denied req=%s", ctxs, op.Req)
 				}
-				return fail(sig, obs, "2xx: "+ctxs+" caller / matching DSN and table grants are recorded")
+				if o, stop := fail(sig, obs, "2xx: "+ctxs+" caller / matching DSN and table grants are recorded"); stop {
+					return o
+				}
 			}
 			// effects
 			if class == "2xx" {
@@ -671,7 +726,9 @@ func oracle(c Case) vkit.Outcome {
 						panic(err)
 					}
 					if !strings.Contains(snap, fmt.Sprintf("%s.t%d:absent", dn, op.Table)) {
-						return fail("drop-reported-but-table-exists", obs, "table absent")
+						if o, stop := fail("drop-reported-but-table-exists", obs, "table absent"); stop {
+							return o
+						}
 					}
 					if err := e.createTable(op.DSN, op.Table); err != nil {
 						panic("fixture: " + err.Error())
@@ -679,7 +736,9 @@ func oracle(c Case) vkit.Outcome {
 					for u := 0; u < 3; u++ {
 						p := fmt.Sprintf("/dsns/%s/tables/%s/permissions?user=%s", dn, tn, userNames[u])
 						if r := e.do(3, "DELETE", p, ""); r.Status/100 != 2 {
-							return fail("table-grant-endpoint-failed", fmt.Sprintf("administrator: DELETE %s -> %d %s", p, r.Status, clip(r.Body, 300)), "2xx")
+							if o, stop := fail("table-grant-endpoint-failed", fmt.Sprintf("administrator: DELETE %s -> %d %s", p, r.Status, clip(r.Body, 300)), "2xx"); stop {
+								return o
+							}
 						}
 						m.tblG[u][op.DSN][op.Table] = map[string]bool{}
 					}
@@ -699,10 +758,14 @@ func oracle(c Case) vkit.Outcome {
 							for t := 0; t < 2; t++ {
 								ts := m.tblG[who][0][t]
 								if shown[e.tn[t]] && !ts["read"] && !ts["admin"] {
-									return fail("list-shows-table-without-grant", obs+fmt.Sprintf("; table %s listed, grants on it {%s}", e.tn[t], setString(ts)), "tables without a read grant are not listed")
+									if o, stop := fail("list-shows-table-without-grant", obs+fmt.Sprintf("; table %s listed, grants on it {%s}", e.tn[t], setString(ts)), "tables without a read grant are not listed"); stop {
+										return o
+									}
 								}
 								if !shown[e.tn[t]] && ts["read"] && who != 2 {
-									return fail("list-hides-granted-table", obs+fmt.Sprintf("; table %s not listed, grants on it {%s}", e.tn[t], setString(ts)), "a table the caller may read is listed")
+									if o, stop := fail("list-hides-granted-table", obs+fmt.Sprintf("; table %s not listed, grants on it {%s}", e.tn[t], setString(ts)), "a table the caller may read is listed"); stop {
+										return o
+									}
 								}
 							}
 						}
@@ -714,11 +777,16 @@ func oracle(c Case) vkit.Outcome {
 				panic("snapshot: " + err.Error())
 			}
 			if want := m.snapshot(); got != want {
-				return fail(fmt.Sprintf("contents-differ req=%s class=%s expect=%s", op.Req, class, expS), obs+"; database:\n"+got, "database:\n"+want)
+				if o, stop := fail(fmt.Sprintf("contents-differ req=%s class=%s expect=%s", op.Req, class, expS), obs+"; database:\n"+got, "database:\n"+want); stop {
+					return o
+				}
 			}
 		}
 	}
-	out.Labels = append(out.Labels, fmt.Sprintf("history len=%d", len(c.Ops)/8*8))
+	out.Labels = append(out.Labels, fmt.Sprintf("history len=%d..%d", len(c.Ops)/8*8, len(c.Ops)/8*8+7))
+	if knownFail != nil {
+		out.Fail = knownFail
+	}
 	return out
 }
 
